@@ -40,3 +40,13 @@ Example C14_nonvacuous :
   /\ run bs0 [KBan 1%N 5; KUse 1%N; KRestart; KUse 1%N; KUnban 1%N 6; KUse 1%N; KBan 1%N 7; KEvict 1%N; KUse 1%N]
      = [None; Some true; None; Some true; None; Some false; None; None; Some true].
 Proof. split; [cbn; lia | vm_compute; reflexivity]. Qed.
+
+(* Durable.store gives a record a limited lifetime (6 h) exactly when it is a tombstone
+   (IsRemoved): the record of a key that is banned is not one, so a ban does not lapse by itself -
+   also not the ban of a key that had been unbanned before *)
+Theorem C14_ban_record_is_no_tombstone : forall e, is_added e = true -> is_removed e = false.
+Proof.
+  intros e H. unfold is_added, is_removed in *. apply andb_prop in H. destruct H as [_ H].
+  apply Z.leb_le in H. apply Z.ltb_ge. exact H.
+Qed.
+Print Assumptions C14_ban_record_is_no_tombstone.
